@@ -108,7 +108,7 @@ func TestVerifC05(t *testing.T) {
 // ---------------------------------------------------------------- C12: the real file recorders behind the processor
 
 type c12rCase struct {
-	Events string `json:"events"` // 1 motion frame, 0 still frame, B bad frame, R reset, T test-recording request
+	Events string `json:"events"`     // 1 motion frame, 0 still frame, B bad frame, R reset, T test-recording request
 	FailOp int    `json:"fail_fs_op"` // the k-th file-system operation returns an I/O error (0 = none)
 }
 
